@@ -308,6 +308,13 @@ func hasParam(fr *Frame, name string) bool {
 
 func (e *Env) fieldOf(v Val, name, src string) (Val, bool) {
 	x := e.x
+	if v.K == KScalar && v.Typ != nil && isWrapper(v.Typ) {
+		st := types.Unalias(v.Typ).(*types.Named).Underlying().(*types.Struct)
+		if st.Field(0).Name() == name {
+			v.Typ = st.Field(0).Type()
+			return v, true
+		}
+	}
 	switch v.K {
 	case KPtr:
 		if v.P.Kind == PCell {
